@@ -170,6 +170,8 @@ pub fn profile_spec(spec: &str) -> VecCfg {
             "pre_c2" => {
                 c.prefill = vec![VecOp::Push(2), VecOp::Commit(1), VecOp::Push(2), VecOp::Commit(1)]
             }
+            // three written values of which the first and the last are deleted
+            "pre_h2" => c.prefill = vec![VecOp::Push(3), VecOp::Delete(Ix::Zero), VecOp::Delete(Ix::LenM1), VecOp::Write],
             // two commits, then a commit that deletes the first slot
             "pre_c2h" => {
                 c.prefill = vec![
@@ -285,6 +287,7 @@ fn plan(property: &str, tier: &str) -> Vec<(&'static str, &'static str, usize)> 
                     ("eager_pco", "dense", 3),
                     ("bytes", "raw", 4),
                     ("bytes", "raw+pre_w3", 4),
+                    ("bytes", "raw+pre_h2", 4),
                     ("pco", "dense+pre_pm1", 4),
                     ("pco", "dense", 5),
                 ]
@@ -292,6 +295,8 @@ fn plan(property: &str, tier: &str) -> Vec<(&'static str, &'static str, usize)> 
                 vec![
                     ("bytes", "raw", 5),
                     ("bytes", "raw+pre_w3", 5),
+                    ("bytes", "raw+pre_h2", 5),
+                    ("zerocopy", "raw+pre_h2", 4),
                     ("pco", "dense+pre_pm1", 5),
                     ("pco", "dense+pre_p1", 5),
                     ("bytes", "raw_full", 3),
